@@ -254,6 +254,7 @@ SvFileOp ==
                     [] o = "creat_tmp" -> [disk EXCEPT !.tmp = Empty]
                     [] o = "write_tmp" -> [disk EXCEPT !.tmp = Doc(wsrc)]
                     [] o = "rename_tmp_path" -> [path |-> disk.tmp, tmp |-> NoFile]
+                    [] o \in {"rename_path_away", "unlink_path"} -> [disk EXCEPT !.path = NoFile]   \* the store name vanishes
                     [] OTHER -> disk
        /\ stable' = IF o \in {"write_path", "rename_tmp_path"} THEN disk'.path ELSE stable
        /\ edited' = IF o \in {"trunc_path", "write_path", "rename_tmp_path"} THEN FALSE ELSE edited
